@@ -100,6 +100,24 @@ TARGETS += [
          selfattrs=[("version", "bytes"), ("inputs", "list:txin"), ("outputs", "list:txout"), ("witnesses", "list:witness"), ("locktime", "bytes"),
                     ("has_segwit", "bool")],
          ret="int", tiefile="tx_ids", fallback="fun v i o w l hs => of_option (Tx.get_size (Tx.Build_tx v i o l hs w))"),
+    dict(coq="src_to_p2sh_spk", file="bitcoinutils/script.py", qual="Script.to_p2sh_script_pub_key", params=[], selfattrs=[("script", "script")], sha=True,
+         ret="script", tiefile="locking_scripts", fallback="fun sha256 ts => of_option (Script.to_p2sh_script_pub_key (fun b => Ripemd160.ripemd160 (sha256 b)) ts)"),
+    dict(coq="src_to_p2wsh_spk", file="bitcoinutils/script.py", qual="Script.to_p2wsh_script_pub_key", params=[], selfattrs=[("script", "script")], sha=True,
+         ret="script", tiefile="locking_scripts", fallback="fun sha256 ts => of_option (Script.to_p2wsh_script_pub_key sha256 ts)"),
+    dict(coq="src_addr_to_hash160", file="bitcoinutils/keys.py", qual="Address.to_hash160", params=[], selfattrs=[("hash160", "hexbytes")],
+         ret="bytes", tiefile="locking_scripts", callable_method=True, fallback="fun h => Ok h"),
+    dict(coq="src_seg_to_witness_program", file="bitcoinutils/keys.py", qual="SegwitAddress.to_witness_program", params=[],
+         selfattrs=[("witness_program", "hexbytes")], ret="bytes", tiefile="locking_scripts", callable_method=True, fallback="fun h => Ok h"),
+    dict(coq="src_p2pkh_spk", file="bitcoinutils/keys.py", qual="P2pkhAddress.to_script_pub_key", params=[], selfattrs=[("hash160", "hexbytes")],
+         ret="script", tiefile="locking_scripts", fallback="fun h => Ok (Address.spk_p2pkh h)"),
+    dict(coq="src_p2sh_spk", file="bitcoinutils/keys.py", qual="P2shAddress.to_script_pub_key", params=[], selfattrs=[("hash160", "hexbytes")],
+         ret="script", tiefile="locking_scripts", fallback="fun h => Ok (Address.spk_p2sh h)"),
+    dict(coq="src_p2wpkh_spk", file="bitcoinutils/keys.py", qual="P2wpkhAddress.to_script_pub_key", params=[], selfattrs=[("witness_program", "hexbytes")],
+         ret="script", tiefile="locking_scripts", fallback="fun h => Ok (Address.spk_segwit Address.P2WPKH h)"),
+    dict(coq="src_p2wsh_spk", file="bitcoinutils/keys.py", qual="P2wshAddress.to_script_pub_key", params=[], selfattrs=[("witness_program", "hexbytes")],
+         ret="script", tiefile="locking_scripts", fallback="fun h => Ok (Address.spk_segwit Address.P2WSH h)"),
+    dict(coq="src_p2tr_spk", file="bitcoinutils/keys.py", qual="P2trAddress.to_script_pub_key", params=[], selfattrs=[("witness_program", "hexbytes")],
+         ret="script", tiefile="locking_scripts", fallback="fun h => Ok (Address.spk_segwit Address.P2TR h)"),
     dict(coq="src_taproot_digest", file="bitcoinutils/transactions.py", qual="Transaction.get_transaction_taproot_digest", sha=True,
          params=[("txin_index", "int"), ("script_pubkeys", "list:script"), ("amounts", "list:int"), ("ext_flag", "int"), ("script", "script"),
                  ("leaf_ver", "int"), ("sighash", "int")],
@@ -126,6 +144,8 @@ STRUCT_SIGNED = {"<i": 4, "<l": 4, "<q": 8}
 
 METHODS = {}
 TRANSLATED = set()
+BASES = {"P2pkhAddress": ["Address"], "P2shAddress": ["Address"], "P2wpkhAddress": ["SegwitAddress"], "P2wshAddress": ["SegwitAddress"],
+         "P2trAddress": ["SegwitAddress"]}
 # element objects of the lists a method iterates over: attribute -> (type, model projection), method -> translated function
 OBJ = {
     "txin": {"attrs": [("txid", "hexbytes", "Tx.ti_txid"), ("txout_index", "int", "Tx.ti_vout"), ("script_sig", "script", "Tx.ti_script"),
@@ -403,7 +423,9 @@ class Tr:
     def call(self, e):
         f = e.func
         # self.m(args): a method of the same object translated earlier on this run
-        if (isinstance(f, ast.Attribute) and isinstance(f.value, ast.Name) and f.value.id == "self" and f.attr in self.methods and not e.keywords):
+        cls_ = self.t["qual"].split(".")[0]
+        if (isinstance(f, ast.Attribute) and isinstance(f.value, ast.Name) and f.value.id == "self" and f.attr in self.methods and not e.keywords
+                and self.methods[f.attr][5] in [cls_] + BASES.get(cls_, [])):
             name = f.attr
             coq, attrs, rty, sha = self.methods[name][:4]
             ptys = self.methods[name][4] if len(self.methods[name]) > 4 else []
@@ -415,7 +437,8 @@ class Tr:
                 if ta != pt: raise Unsupported("method argument type")
                 pre_m += p; args.append(a)
             for a_, ty in attrs:
-                if "self." + a_ not in self.env or self.env["self." + a_][1] != ty: raise Unsupported("method call needs attribute %s" % a_)
+                if "self." + a_ not in self.env or self.env["self." + a_][1] != ("bytes" if ty == "hexbytes" else ty):
+                    raise Unsupported("method call needs attribute %s" % a_)
                 args.append(self.env["self." + a_][0])
             t = self.fresh()
             return pre_m + [("res", t, "%s%s %s" % (coq, " sha256" if sha else "", " ".join(args)))], t, rty
@@ -467,6 +490,28 @@ class Tr:
             p, a, ta = self.expr(f.value.args[0])
             if ta != "bytes": raise Unsupported("sha256 of %s" % ta)
             return p, "(sha256 %s)" % a, "bytes"
+        # Script([...]) : a token list of opcode names, hex data and small integers
+        if isinstance(f, ast.Name) and f.id == "Script" and len(e.args) == 1 and isinstance(e.args[0], ast.List) and not e.keywords:
+            pre = []; toks = []
+            for el in e.args[0].elts:
+                if isinstance(el, ast.Constant) and isinstance(el.value, str) and el.value.startswith("OP_") and el.value.isascii() and '"' not in el.value:
+                    toks.append('TOp "%s"%%string' % el.value); continue
+                if isinstance(el, ast.Constant) and isinstance(el.value, int) and not isinstance(el.value, bool):
+                    toks.append("TInt (%d)" % el.value); continue
+                p, a, ta = self.expr(el)
+                if ta not in ("bytes", "hexstr"): raise Unsupported("script element of type %s" % ta)
+                pre += p; toks.append("TData %s" % a)
+            return pre, "[" + "; ".join(toks) + "]", "script"
+        # ripemd160(x): the bundled implementation (modelled concretely, C20)
+        if isinstance(f, ast.Name) and f.id == "ripemd160" and len(e.args) == 1 and not e.keywords:
+            p, a, ta = self.expr(e.args[0])
+            if ta != "bytes": raise Unsupported("ripemd160 of %s" % ta)
+            return p, "(Ripemd160.ripemd160 %s)" % a, "bytes"
+        # self.to_bytes() inside class Script: the model's Script.to_bytes on the token list
+        if (isinstance(f, ast.Attribute) and f.attr == "to_bytes" and isinstance(f.value, ast.Name) and f.value.id == "self" and not e.args
+                and self.t["qual"].startswith("Script.") and "self.script" in self.env):
+            t = self.fresh()
+            return [("opt", t, "Script.to_bytes %s" % self.env["self.script"][0])], t, "bytes"
         # b"".join(<expr> for x in <list>)  /  b"".join([<expr> for x in <list>]): a loop that appends
         if (isinstance(f, ast.Attribute) and f.attr == "join" and isinstance(f.value, ast.Constant) and f.value.value == b""
                 and len(e.args) == 1 and isinstance(e.args[0], (ast.GeneratorExp, ast.ListComp)) and len(e.args[0].generators) == 1):
@@ -659,7 +704,7 @@ class Tr:
             pre, a, ta = self.expr(val)
             was_hex = (ta == "hexstr")
             if was_hex: ta = "bytes"
-            if ta not in ("int", "bytes", "bool", "hexint") and ta not in OBJ:
+            if ta not in ("int", "bytes", "bool", "hexint", "script") and ta not in OBJ:
                 raise Unsupported("assignment of %s" % ta)
             saved = dict(self.env)
             ident = self.bind(key, a, ta)
@@ -818,7 +863,7 @@ def main():
     consts = tables()
     out = ["(* GENERATED by harness/gen_src.py from the source files of the tree under test -- do not edit. *)",
            "From Coq Require Import String ZArith List Bool.",
-           "From BU Require Import Lib.Bytes Lib.PySem Gen.Tables Model.Varint Model.Script Model.Seq Model.Tx Model.Block Model.Sighash Model.Msg Model.Taproot.",
+           "From BU Require Import Lib.Bytes Lib.PySem Gen.Tables Model.Varint Model.Script Model.Seq Model.Tx Model.Block Model.Sighash Model.Msg Model.Taproot Model.Ripemd160 Model.Address.",
            "Import ListNotations.", "Open Scope list_scope.", "Open Scope Z_scope.", "",
            ""]
     known = {}
@@ -839,7 +884,8 @@ def main():
             out.append("Definition %s := %s." % (t["coq"], t["fallback"]))
         out.append("")
         if t.get("callable_method"):
-            METHODS[t["qual"].split(".")[-1]] = (t["coq"], t["selfattrs"], t["ret"], t.get("sha", False), [ty for _, ty in t["params"]])
+            METHODS[t["qual"].split(".")[-1]] = (t["coq"], t["selfattrs"], t["ret"], t.get("sha", False), [ty for _, ty in t["params"]],
+                                                 t["qual"].split(".")[0])
         if t.get("register", True):
             known[t["qual"].split(".")[-1]] = (t["coq"], [ty for _, ty in t["params"]] + [ty for _, ty in t.get("selfattrs", [])], t["ret"], t.get("sha", False))
         if t.get("selfattrs") and t.get("register", True):
